@@ -173,6 +173,19 @@ def r4(ctx, rep):
         kinds = sorted(last_seg(n["p"]) for n in walk(c.get("pat", {})) if n.get("k") in ("p_struct", "p_ts", "p_path")) if c.get("k") == "macro" else []
         ok = kinds == ["Append", "Join"] and show(tail_expr(i["t"])) == "vec!()" and show(tail_expr(i["e"])) == "self.sort.clone()"
     rep.check(ok, "join-append-no-inherit", "only Join and Append get an empty sort; every other transform carries the current sort (take needs it)", file=fl["file"], line=fl["l"], fn=fl["path"])
+    # the state `self.sort` itself must survive the folding of a Join / Append argument (a sort inside the argument assigns it)
+    ok = False
+    for m in matches_of(fl["body"]):
+        for arm in m["arms"]:
+            pt = show(arm["pat"], maxdepth=8)
+            if "TransformKind::Join" in pt and "TransformKind::Append" in pt and arm["body"].get("k") == "block":
+                st = [show_stmts({"k": "block", "s": [x]}, maxdepth=8) for x in arm["body"]["s"]]
+                i_fold = [i for i, t in enumerate(st) if "fold_transform_kind(self, kind)" in t]
+                i_save = [i for i, t in enumerate(st) if t.startswith("let ") and ("std::mem::take(&mut self.sort)" in t or "self.sort.clone()" in t or "mem::take(&mut self.sort)" in t)]
+                i_rest = [i for i, t in enumerate(st) if t.startswith("self.sort = ") or t.startswith("self.sort.clone_from(")]
+                ok = bool(i_fold) and any(i < i_fold[0] for i in i_save) and any(i > i_fold[0] for i in i_rest)
+    rep.check(ok, "join-append-state-restored", "folding the argument of a join / append runs the Sort arm for any `sort` inside it, which assigns `self.sort`: the outer pipeline's sort must be saved before "
+              "`fold_transform_kind(self, kind)` and restored after it, otherwise a following `take` selects its rows in the joined pipeline's order", file=fl["file"], line=fl["l"], fn=fl["path"])
     s = None
     for m in matches_of(fl["body"]):
         for arm in m["arms"]:
@@ -256,6 +269,13 @@ def r5(ctx, rep):
     rep.check(ok, "compose:empty", "an empty composition (end < start) must become `take 0` (LIMIT 0)", file=g["file"], line=g["l"], fn=g["path"])
 
 
+def r6(ctx, rep):
+    import C01
+    rep.rule("C03.R6", "a take is never fused with a following DISTINCT ON (the positions would be taken after de-duplication)", floor=1)
+    f, m, table = C01.split_table(ctx.syn)
+    C01.take_distinct_on_shield(ctx.syn, table, rep)
+
+
 def run(ctx, rep):
-    for r in (r1_r2, r3, r4, r5):
+    for r in (r1_r2, r3, r4, r5, r6):
         rep.guard(r, ctx)
